@@ -337,7 +337,18 @@ func (e *Exec) floatBin(op token.Token, x, y Float) Value {
 			}
 			la, ha, oka := e.ival(a)
 			lb, hb, okb := e.ival(b)
-			if oka && okb && la > -(1<<26) && ha < 1<<26 && lb > -(1<<26) && hb < 1<<26 {
+			// the exact result of two integer-valued operands is an integer; below 2^53 in magnitude it is representable,
+			// so the IEEE result is that integer (symbolic x symbolic products stay within 2^26 to keep the query linear)
+			small := oka && okb && la > -(1<<26) && ha < 1<<26 && lb > -(1<<26) && hb < 1<<26
+			if !small && oka && okb && (a.S == nil || b.S == nil || op != token.MUL) {
+				ma, mb := math.Max(math.Abs(float64(la)), math.Abs(float64(ha))), math.Max(math.Abs(float64(lb)), math.Abs(float64(hb)))
+				if op == token.MUL {
+					small = ma*mb < float64(two53)/2
+				} else {
+					small = ma+mb < float64(two53)/2
+				}
+			}
+			if small {
 				r := e.intBin(op, a, b)
 				if r.S == nil {
 					return Float{W: 64, C: float64(r.C)}
